@@ -16,11 +16,13 @@ func Encode(data []byte, fragmentSize, redundancy int) ([][]byte, error) {
 		return nil, errors.New("length of data must be a multiple of the given fragment-size")
 	}
 
-	// fragment the data into rows
+	// fragment the data into rows (copies: the returned fragments do not share memory with data)
 	var dataRows [][]byte
 	for i := 0; i < len(data)/fragmentSize; i++ {
 		offset := i * fragmentSize
-		dataRows = append(dataRows, data[offset:offset+fragmentSize])
+		row := make([]byte, fragmentSize)
+		copy(row, data[offset:offset+fragmentSize])
+		dataRows = append(dataRows, row)
 	}
 	w := len(dataRows)
 
